@@ -27,7 +27,7 @@ pub mod c18;
 
 /// Budget for `parse`: far above the C18 bound, so that only a runaway trips it.
 pub fn parse_budget(len: usize) -> u64 {
-    64 * len as u64 + 65_536
+    256 * len as u64 + 262_144
 }
 
 /// Run the library's parser under the monitors.
